@@ -153,6 +153,7 @@ def revolute_case(j, e, alen, rng, sigma=1.0):
         if Ek is not None and Gk is not None:
             check(j, float(np.max(np.abs(Gk - Ek))) <= TOL * sc, "(S*k).exp()", feat, "differs-from-S.exp(k)-after-accessors",
                   dict(detail, k=kk), cidk)
+    _POOL.append((np.asarray(S.S, dtype=float).copy(), u.copy(), p.copy(), sc))
     cid = ("Twist3.line", feat)
     L = guard(j, "Twist3.line", feat, detail, cid, lambda: S.line())
     if L is not None:
@@ -162,6 +163,30 @@ def revolute_case(j, e, alen, rng, sigma=1.0):
         ok = float(np.linalg.norm(np.cross(w, u))) / nw <= 1e-9 and \
             float(np.linalg.norm(np.cross(w, p) - vv)) / (nw * sc) <= 1e-9
         check(j, ok, "Twist3.line", feat, "line-of-action-off-axis", detail, cid)
+
+
+_POOL = []
+
+
+def multi_valued_lines(j):
+    """line() of a Twist3 holding several unit twists with DIFFERENT axes: line i is the axis of twist i"""
+    from spatialmath import Twist3
+    for k in range(0, min(len(_POOL), 60) - 2, 3):
+        trio = _POOL[k:k + 3]
+        cid = ("Twist3[N].line",)
+        detail = {"kind": "multi-valued-line", "twists": [t[0].tolist() for t in trio]}
+        L = guard(j, "Twist3[N].line", "n=3", detail, cid, lambda: Twist3([t[0] for t in trio]).line())
+        if L is None:
+            continue
+        ok = len(L) == 3
+        if ok:
+            for i, (S_, u, p, sc) in enumerate(trio):
+                w = np.asarray(L[i].w, dtype=float)
+                vv = np.asarray(L[i].v, dtype=float)
+                nw = max(float(np.linalg.norm(w)), 1e-300)
+                ok = ok and float(np.linalg.norm(np.cross(w, u))) / nw <= 1e-9 and \
+                    float(np.linalg.norm(np.cross(w, p) - vv)) / (nw * sc) <= 1e-9
+        check(j, ok, "Twist3[N].line", "n=3", "line-i-is-not-the-axis-of-twist-i", detail, cid)
 
 
 def prismatic_case(j, d, alen):
@@ -267,6 +292,7 @@ def run(tier):
         elif c["k"] == "screw2":
             for sg in (1.0, 1e3):
                 planar_case(j, e, rng, sg)
+    multi_valued_lines(j)
     for d in [(1, 0, 0), (0, 0, 1), (1, 1, 0), (1, -2, 3), (-3, 0, 1)]:
         for al in lens:
             prismatic_case(j, d, al)
